@@ -286,38 +286,33 @@ def enumeration(rep):
 # ------------------------------------------------------------------ O20.3
 def petri(rep):
     en = rep.f(NET, "PetriNet.enabled")
-    pm = parent_map(en.node)
-    loops = [l for l in walk_local(en.node) if isinstance(l, ast.For)]
-    rep.need("CMP", len(loops), 1, "loop over pre in enabled")
-    lp = loops[0]
+    # a decision function of (marking, pre-set of the transition): tabulate it on small markings
+    from ..absval import eval_function, _NOVALUE
     MK, TID = en.params[1], en.params[2]
-    itm = pmatch("$t.pre.items()", lp.iter)
-    ok_it = itm is not None and norm(origin(local_defs(en.node), ast.Name(id=itm["t"], ctx=ast.Load()))) == f"self.transitions[{TID}]"
-    rep.ob("O20.3", "CMP", en, ok_it, lp.iter, "enabledness is decided from the transition's own pre-set")
-    p, w = [norm(e) for e in lp.target.elts]
-    falses = [r for r in walk_local(lp) if isinstance(r, ast.Return) and is_const(r.value, False)]
-    ok = None
-    if len(falses) == 1:
-        gs = guards_of(pm, falses[0], lp)
-        try:
-            bad = []
-            for m in (0, 1, 2, 3):
-                for ww in (1, 2, 3):
-                    val = True
-                    for t, s in gs:
-                        r = bool(eval_expr(t, {f"{MK}.get({p}, 0)": m, w: ww}))
-                        val = val and (r if s else not r)
-                    if val != (m < ww):
-                        bad.append((m, ww, val))
-            ok = not bad
-        except Undecided:
-            ok = None
-    rep.ob("O20.3", "CMP", en, ok, falses[0] if falses else "return False", "a transition is disabled exactly when some place holds fewer tokens than its pre-weight")
-    rets = returns_of(en.node)
-    rep.ob("O20.3", "CMP", en, bool(rets) and is_const(rets[-1].value, True) and not guards_of(pm, rets[-1], en.node), rets[-1] if rets else "return",
-           "otherwise the transition is enabled")
-    exits = [n for n in walk_local(lp) if isinstance(n, (ast.Break, ast.Continue))]
-    rep.ob("O20.3", "CMP", en, not exits, [type(e).__name__ for e in exits], "every pre-place is checked")
+    bad, n_cases, decided = [], 0, True
+    pres = ({}, {"p": 1}, {"p": 2}, {"p": 1, "q": 2}, {"q": 3})
+    marks = ({}, {"p": 1}, {"p": 2, "q": 1}, {"p": 1, "q": 2}, {"q": 5}, {"p": 0, "q": 3}, {"p": 3, "q": 3})
+    for pre in pres:
+        def hook(expr, env, pre=pre):
+            if isinstance(expr, ast.Subscript) and norm(expr.value) == "self.transitions" and norm(expr.slice) == TID:
+                return "<transition>"
+            if isinstance(expr, ast.Attribute) and expr.attr == "pre":
+                from ..absval import eval_expr as _ev
+                return pre if _ev(expr.value, env) == "<transition>" else _NOVALUE
+            return _NOVALUE
+        for mk in marks:
+            try:
+                got = eval_function(en.node, {"__resolve__": hook, MK: mk, TID: "<tid>"})
+            except Undecided:
+                decided = False
+                break
+            n_cases += 1
+            want = all(mk.get(p_, 0) >= w_ for p_, w_ in pre.items())
+            if got is not want:
+                bad.append(f"pre={pre}, marking={mk}: {got!r}")
+    rep.ob("O20.3", "CMP", en, (not bad) if decided else None, "enabled(marking, tid) on small markings",
+           "a transition is enabled exactly when every pre-place holds at least its pre-weight (decided from the transition's own pre-set; every pre-place is checked)",
+           {"cases": n_cases, "disagreements": bad[:6]})
     # fire
     fr = rep.f(NET, "PetriNet.fire")
     defs = local_defs(fr.node)
